@@ -160,7 +160,7 @@ func main() {
 	nFresh := len(pool)
 	// re-assembly
 	rngR := r.Rand("reassemble")
-	pairs := r.N(40, 400)
+	pairs := r.N(40, 1500)
 	for p := 0; p < pairs; p++ {
 		e1, e2 := pool[rngR.Intn(nFresh)], pool[rngR.Intn(nFresh)]
 		if e1.Format != e2.Format || bytes.Equal(e1.Raw, e2.Raw) {
@@ -208,7 +208,7 @@ func main() {
 	nReassembled := len(pool) - nFresh
 	// byte mutation + structure-aware
 	rngM := r.Rand("mutate")
-	for p := 0; p < r.N(1500, 40000); p++ {
+	for p := 0; p < r.N(1500, 150000); p++ {
 		e := pool[rngM.Intn(nFresh)]
 		k := 1 + rngM.Intn(3)
 		pool = append(pool, env{fmt.Sprintf("mutated|k=%d|[%s]", k, e.Label), e.Format, mutate(rngM, e.Raw, k)})
@@ -248,7 +248,7 @@ func main() {
 	metaReqs := []string{"none", "subset", "exact", "value-changed", "extra-key", "empty-value-missing-key", "none", "none"}
 	var cases []caseT
 	rngC := r.Rand("cases")
-	nCases := r.N(60000, 600000)
+	nCases := r.N(60000, 3000000)
 	for len(cases) < nCases {
 		var e int
 		switch rngC.Intn(10) {
